@@ -474,6 +474,11 @@ def r_normal(I, args, kw):
     return nf.atom(f"Normal({kname};{','.join(str(x) for x in shp)})", shp)
 
 
+def r_prngkey(I, args, kw):
+    seed = args[0] if args else kw.get("seed")
+    return nf.atom(f"PRNGKey({seed})", [2], kind="key")
+
+
 def l_stop_gradient(I, args, kw):
     I.flags.setdefault("stop_gradient", []).append(I.site)
     return args[0]
@@ -563,7 +568,7 @@ EXT = {
     "jax.numpy.cumsum": not_modelled("cumsum"),
     "jax.numpy.linalg.slogdet": j_slogdet, "jax.numpy.linalg.cholesky": j_cholesky,
     "jax.scipy.linalg.cho_factor": j_cho_factor, "jax.scipy.linalg.cho_solve": j_cho_solve,
-    "jax.random.normal": r_normal,
+    "jax.random.normal": r_normal, "jax.random.PRNGKey": r_prngkey, "jax.random.key": r_prngkey,
     "jax.lax.stop_gradient": l_stop_gradient,
     "jax.vmap": not_modelled("vmap"), "jax.lax.scan": not_modelled("lax.scan"),
     "jax.lax.while_loop": not_modelled("lax.while_loop"), "jax.jit": lambda I, a, k: a[0],
